@@ -265,7 +265,7 @@ func (chain *groupChain) remove(group *types.Group) bool {
 	}
 	chain.groups.Delete(group.Id)
 	chain.groups.Put([]byte(lastGroupKey), preGroup.Id)
-	chain.groups.Put(generateKey(chain.count), preGroup.Id)
+	chain.groups.Delete(generateKey(chain.count - 1))
 	chain.count--
 	chain.groups.Put([]byte(groupCountKey), utility.UInt64ToByte(chain.count))
 	chain.lastGroup = preGroup
